@@ -35,9 +35,11 @@ MODEL = dict(
     bin="sacadmin",
     trace="Trace_SacAdmin",
     mc=[
-        # the tree as it is: management calls are refused (recorded known finding); nothing else fails
-        _known(_mc("generic", "code", name="generic_code", every=12)),
-        # the example as its comments describe it (the chief manages operators and limits): no monitor fails
+        # the tree as it is: the chief's management calls and the operators' mint / clawback are refused (the two
+        # recorded known findings); nothing else fails
+        _known(_mc("generic", "code", name="generic_code", depth=7, every=8, tdepth=9, tevery=40)),
+        # the example as its comments and the library's README describe it (the chief manages operators and limits,
+        # operators mint within their limit and claw back): no monitor fails
         _mc("generic", "intended", every=40),
         _mc("wrapper", depth=6, every=25),
         # vacuity guards: seeded model bugs that the monitors must see
